@@ -334,6 +334,9 @@ def gen_history(rnd, n_obs, length, hid0):
             b = rnd.choice(readable)
             if not _finite(t, a) or not _finite(t, b):
                 a = b = "x"
+                if not _finite(t, "x"):
+                    break    # x itself was overwritten with NaN / inf (setobs): aggregates of a column without finite values
+                    #          (median of nothing, ...) are outside the domain; the history ends here (false alarm met in round 12)
             if rnd.random() < 0.6:
                 op = rnd.choice(U_PURE)
                 ev = {"ev": "pure", "op": op, "args": [a]}
